@@ -35,7 +35,11 @@ def build (j : Json) : R (Except PyErr (EarlyStopping Float)) := do
   let name ← jStr (← fld j "name")
   let dep ← (match fldOpt j "deprecated" with | some b => jBool b | none => pure false)
   if dep then
-    return VarianceBasedEarlyStopping.new ps tol pat ek name none
+    -- the documented-as-ignored `variance_name` is handed to the model's constructor, which ignores it
+    let vn ← (match fldOpt j "variance_name" with
+      | some (.str s) => pure (some s)
+      | _ => pure none)
+    return VarianceBasedEarlyStopping.new ps tol pat ek name vn
   else
     let crit ← jStr (← fld j "criterion")
     return EarlyStopping.new ps tol pat ek name crit
@@ -107,6 +111,49 @@ def fit (j : Json) : R Json := do
           ("fired", .arr (r.fired.map iOut).toArray),
           ("len", nOut r.ev.len),
           ("epochs", .arr (r.ev.epochs.map iOut).toArray)])]
+
+/-- op `c18.session`: SEVERAL consecutive `fit` calls on the same evaluator and stopper objects (`QV.Cb.sessionRun`).
+in : as `c18.fit` without pre / cands, plus segments:[{clear, reset, cands:[[e,w]]}]
+out: {"ok": [{stop, last_epoch, fired, len, epochs} per call]} | {"error": kind} -/
+def session (j : Json) : R Json := do
+  let pe ← jInt (← fld j "pe")
+  let evalFirst ← jBool (← fld j "eval_first")
+  let name ← jStr (← fld j "name")
+  let vals ← (← jArr (← fld j "vals")).mapM parseNum
+  let vars ← (match fldOpt j "vars" with | some x => do (← jArr x).mapM parseNum | none => pure #[])
+  let parseCands (x : Json) : R (List (Int × Nat)) := do
+    (← jArr x).toList.mapM (fun p => do
+      let pa ← jArr p
+      if pa.size != 2 then .error "cand = [epoch, w]"
+      return (← jInt pa[0]!, ← jNat pa[1]!))
+  let segs ← (← jArr (← fld j "segments")).toList.mapM (fun s => do
+    let c ← parseCands (← fld s "cands")
+    let clear ← jBool (← fld s "clear")
+    let reset ← jBool (← fld s "reset")
+    return ({ clear := clear, reset := reset, cands := c } : Segment Nat))
+  let zero : Num Float := ⟨.py, 0.0⟩
+  match (← build j) with
+  | .error e => return errJ e
+  | .ok es =>
+    let ev0 : AnyEval Nat Float :=
+      match es.evalKind with
+      | .observable =>
+        let c : ObservableEvaluator Nat (Num Float) := ⟨pe, [name], fun w =>
+          [(name, [("mean", vals[w]?.getD zero), ("variance", vars[w]?.getD zero),
+                   ("std_error", zero), ("num_samples", zero)])], false⟩
+        .observable c c.init
+      | _ =>
+        let c : MetricEvaluator Nat (Num Float) := ⟨pe, [(name, fun w => vals[w]?.getD zero)], false⟩
+        .metric c c.init
+    match sessionRun es evalFirst ev0 ⟨false, none⟩ segs with
+    | .error e => return errJ e
+    | .ok rs =>
+      return Json.mkObj [("ok", .arr (rs.map (fun r => Json.mkObj [
+        ("stop", .bool r.st.stop),
+        ("last_epoch", match r.st.lastEpoch with | some e => iOut e | none => .null),
+        ("fired", .arr (r.fired.map iOut).toArray),
+        ("len", nOut r.ev.len),
+        ("epochs", .arr (r.ev.epochs.map iOut).toArray)])).toArray)]
 
 /-- one stop source of `c18.fit_multi`: {"kind": "stopper", …the fields of `build`…} | {"kind": "request", "epochs": [e]} -/
 def parseSrc (j : Json) : R (Except PyErr (StopSrc Float)) := do
@@ -195,6 +242,7 @@ def handle (op : String) (j : Json) : Option (R Json) :=
   | "c18.new" => some (new j)
   | "c18.fit" => some (fit j)
   | "c18.fit_multi" => some (fitMulti j)
+  | "c18.session" => some (session j)
   | "c18.norm" => some (norm j)
   | _ => none
 
